@@ -3,6 +3,8 @@ package rules
 import (
 	"fmt"
 
+	"golang.org/x/tools/go/ssa"
+
 	"verif/checker/eng"
 )
 
@@ -43,5 +45,40 @@ func init() {
 			ev := eng.RetErr(ret)
 			fmt.Printf("block %d ret err=%v (%T) class=%v sentinels=%v\n", ret.Block().Index, ev, ev, eng.ClassifyErr(ev, ret.Block()), eng.Sentinels(ev))
 		}
+	}
+}
+
+func init() {
+	// GTCHECK_DUMP=errdisc: every call site with an error result in library packages that fails P3
+	debugHooks["errdisc"] = func(c *Ctx) {
+		rule := &eng.Rule{ID: "DBG.errdisc", Prop: "DBG", Run: func(c *Ctx, r *R) {
+			c.ModuleFuncs(func(fn *ssa.Function) {
+				p := pkgOf(fn)
+				if !errDiscPkgs[p] || takesTestingT(fn) {
+					return
+				}
+				for _, k := range eng.Calls(fn, false) {
+					if _, has := k.ErrResult(); !has {
+						if k.Instr == nil || !returnsError(k) {
+							continue
+						}
+					}
+					if ignorableCallees[k.Name()] {
+						continue
+					}
+					errPropagates(c, r, callKey(fn, k), k, absenceSentinels...)
+				}
+			})
+		}}
+		rr := eng.RunRule(c, rule)
+		n, bad := 0, 0
+		for _, o := range rr.Obls {
+			n++
+			if o.Status != eng.Discharged {
+				bad++
+				fmt.Printf("%s %s\n    %s\n", o.Pos, o.Key, o.Msg)
+			}
+		}
+		fmt.Printf("errdisc: %d call sites, %d failing\n", n, bad)
 	}
 }
